@@ -189,7 +189,23 @@ const PRIMS: &[&str] = &[
     ":: std :: string :: String", "std :: path :: PathBuf", "Vec < Vec < u16 > >", "Option < Box < u64 > >",
 ];
 
+thread_local! {
+    /// when set, every generated identifier ends in a running number: no two names of a *flood* are equal
+    pub static UNIQ: std::cell::Cell<Option<u64>> = const { std::cell::Cell::new(None) };
+}
+
 fn ident(r: &mut Rng, prefix: &str) -> String {
+    let s = ident_plain(r, prefix);
+    match UNIQ.with(|u| u.get()) {
+        Some(n) => {
+            UNIQ.with(|u| u.set(Some(n + 1)));
+            format!("{s}{n}")
+        }
+        None => s,
+    }
+}
+
+fn ident_plain(r: &mut Rng, prefix: &str) -> String {
     // one identifier in twelve is long and shares a 24+ byte prefix (and often its length) with others
     if r.chance(1, 12) {
         const LONG: &[&str] = &["ConfigurationFileFormatVersion", "AVeryLongAndDescriptiveIdentifierPrefix"];
@@ -1032,8 +1048,51 @@ pub fn breaker(key: &Key, r: &mut Rng) -> Option<Key> {
             });
         }
     }
-    let how = r.below(4);
+    let how = r.below(6);
     let mut changed = false;
+    // 3: a field's helper attribute copied onto a SIBLING field of the same variant / struct ("multiple .. specified",
+    //    "conflicting fields": errors raised late, after earlier variants have been processed)
+    if how >= 4 {
+        let spread = |fields: &mut syn::Fields, r: &mut Rng| -> bool {
+            let n = fields.len();
+            if n < 2 {
+                return false;
+            }
+            let src = fields.iter().position(|f| f.attrs.iter().any(|a| a.path().is_ident(name.as_str())));
+            match src {
+                Some(i) => {
+                    let a = fields.iter().nth(i).unwrap().attrs.iter().find(|a| a.path().is_ident(name.as_str())).cloned().unwrap();
+                    let mut j = r.below(n);
+                    if j == i {
+                        j = (j + 1) % n;
+                    }
+                    fields.iter_mut().nth(j).unwrap().attrs.push(a);
+                    true
+                }
+                None => false,
+            }
+        };
+        match &mut di.data {
+            syn::Data::Struct(st) => changed = spread(&mut st.fields, r),
+            syn::Data::Enum(e) => {
+                // prefer a late variant
+                let n = e.variants.len();
+                for i in (0..n).rev() {
+                    if r.chance(1, 3) && i > 0 {
+                        continue;
+                    }
+                    if spread(&mut e.variants.iter_mut().nth(i).unwrap().fields, r) {
+                        changed = true;
+                        break;
+                    }
+                }
+            }
+            _ => {}
+        }
+        if changed {
+            return Some(Key { derive: key.derive.clone(), item: di.to_token_stream().to_string() });
+        }
+    }
     // 1: duplicate an existing helper attribute somewhere
     if how == 0 || how == 2 {
         if let Some(a) = di.attrs.iter().find(|a| !a.path().is_ident("repr")).cloned() {
